@@ -232,6 +232,9 @@ def report(ctx, runner, bads, tag):
     with the oracles) for a concrete property failure."""
     seen = set()
     parsed = [parse_bad(ln) for ln in bads]
+    for b in parsed:       # a known finding never hides a model/implementation difference of the same run
+        if b.get("oracle") and oracle_key(b) and b.get("diff"):
+            b["oracle"] = None
     parsed.sort(key=lambda b: (0 if b.get("oracle") else 1, b.get("steps", 0)))   # concrete failures first, shortest first
     have_concrete = any(b.get("oracle") and not oracle_key(b) for b in parsed)
     for b in parsed:
@@ -479,13 +482,15 @@ def create_failures(ctx, runner):
             lines += ["FCASE threads=%d queue=%d cfail=%d afail=0" % (th, q, k) for k in range(1, th + 1)]
             lines += ["FCASE threads=%d queue=%d cfail=0 afail=%d" % (th, q, k) for k in (1, 2, 3)]
     p = subprocess.run([runner.h], input="\n".join(lines) + "\n", capture_output=True, text=True, timeout=300)
-    cur, n = None, 0
+    cur, n, seen = None, 0, set()
     for ln in p.stdout.splitlines():
         if ln.startswith("FCASE"):
             cur = ln; n += 1
             ctx.count(("create-failure", ln), nontrivial=True)
         elif ln.startswith("O ") and cur:
-            ctx.violation(dict(kind="create-failure", case=cur, observed=ln[2:]), what="POOL_create_advanced with a failing allocation / pthread_create: %s (%s)" % (ln[2:], cur))
+            if ln[2:42] not in seen and len(seen) < 3:       # one report per kind of failure
+                seen.add(ln[2:42])
+                ctx.violation(dict(kind="create-failure", case=cur, observed=ln[2:]), what="POOL_create_advanced with a failing allocation / pthread_create: %s (%s)" % (ln[2:], cur))
             cur = None
     if p.returncode != 0 or n != len(lines):
         raise RuntimeError("C12: create-failure runs: rc=%d, %d of %d cases ran: %s" % (p.returncode, n, len(lines), p.stderr[-500:]))
